@@ -4,7 +4,7 @@ use crate::client::WriteMultiple;
 use crate::common::traits::Loggable;
 use crate::common::traits::Parse;
 use crate::common::traits::Serialize;
-use crate::error::{InternalError, RequestError};
+use crate::error::{InternalError, InvalidRequest, RequestError};
 use crate::server::response::{BitWriter, RegisterWriter};
 use crate::types::{
     coil_from_u16, coil_to_u16, AddressRange, BitIterator, BitIteratorDisplay, Indexed,
@@ -282,6 +282,10 @@ impl Serialize for &[u16] {
 
 impl Serialize for WriteMultiple<bool> {
     fn serialize(&self, cursor: &mut WriteCursor) -> Result<(), RequestError> {
+        let limit = crate::constants::limits::MAX_WRITE_COILS_COUNT;
+        if self.range.count > limit {
+            return Err(InvalidRequest::CountTooBigForType(self.range.count, limit).into());
+        }
         self.range.serialize(cursor)?;
         self.values.as_slice().serialize(cursor)
     }
@@ -289,6 +293,10 @@ impl Serialize for WriteMultiple<bool> {
 
 impl Serialize for WriteMultiple<u16> {
     fn serialize(&self, cursor: &mut WriteCursor) -> Result<(), RequestError> {
+        let limit = crate::constants::limits::MAX_WRITE_REGISTERS_COUNT;
+        if self.range.count > limit {
+            return Err(InvalidRequest::CountTooBigForType(self.range.count, limit).into());
+        }
         self.range.serialize(cursor)?;
         self.values.as_slice().serialize(cursor)
     }
